@@ -208,6 +208,11 @@ def _baseline_compute(req):
         if kind == "mirror_describe":
             m = obj.gen_mirror()
             return ("none",) if m is None else ("ok", m.generate_string(True), m.generate_string(False))
+        if kind == "typing":
+            from . import c20
+
+            w.__exit__(None, None, None)
+            return c20.baseline_typing(req)
         if kind == "reaction_graph":
             try:
                 return ("ok", _graph_digest(obj.gen_reaction_graph()))
